@@ -75,8 +75,14 @@ def _mk_type(cls_name, fund, amb, extra_syn, caseless):
     fundsyms = list(fund)
     ambsyms = sorted(k for k in table if len(table[k]) > 1)
     lowers = sorted(k for k in table if len(table[k]) == 1 and k not in fund)
+    # palette pool: fundamental states, those named by a narrow ambiguity code listed more often
+    pool = list(fundsyms)
+    if len(fundsyms) > 10:
+        for a in ambsyms:
+            if len(table[a]) <= 3:
+                pool += list(table[a]) * 3
     return {"cls": cls_name, "fund": tuple(fund), "table": table, "fundsyms": fundsyms, "ambsyms": ambsyms,
-            "lowers": lowers,
+            "lowers": lowers, "pool": pool,
             "all": fundsyms + ambsyms + lowers + [GAP, GAP, GAP, MISSING, MISSING]}
 
 
@@ -617,15 +623,22 @@ def matrices(draw, n, max_chars, unambiguous=False):
     cols = []
     for c in range(nchar):
         k = draw(st.integers(2, 3))
-        palette = draw(st.lists(st.sampled_from(T["fundsyms"]), min_size=k, max_size=k))
+        palette = draw(st.lists(st.sampled_from(T["pool"]), min_size=k, max_size=k))
         if unambiguous:
             cell = st.sampled_from(palette + [GAP])
         else:
-            mode = draw(st.sampled_from(["clean", "mixed", "mixed", "mixed", "wild"]))
+            # symbols whose state set overlaps the palette without being a single palette state: these are the
+            # cells for which the exact meaning of a code decides the score
+            related = [s for s in T["ambsyms"] if set(T["table"][s]) & set(palette)] + [GAP, MISSING]
+            mode = draw(st.sampled_from(["clean", "mixed", "mixed", "related", "related", "gappy", "wild"]))
             if mode == "clean":
                 cell = st.sampled_from(palette)
             elif mode == "mixed":
                 cell = st.one_of(st.sampled_from(palette), st.sampled_from(palette), st.sampled_from(T["all"]))
+            elif mode == "related":
+                cell = st.one_of(st.sampled_from(palette), st.sampled_from(related))
+            elif mode == "gappy":
+                cell = st.sampled_from(palette + [GAP, MISSING])
             else:
                 cell = st.sampled_from(T["all"])
         cols.append(draw(st.lists(cell, min_size=n, max_size=n)))
